@@ -1,4 +1,5 @@
 import ComposeVerif.Props.C10
+import ComposeVerif.Props.C10Rules
 import ComposeVerif.Lemmas.Merge
 /-!
 # C10 — "with the violating part placed in any file": the structural rules across `override.Merge`
@@ -218,6 +219,63 @@ theorem split_external_volume_rejected (A B SA SB a b : KVs) (merged : Val) (nam
   | none => rw [hl] at hkm; cases hkm
   | some x => exact validate_rejects_external_volume_with_parameters top secs m name k x h1 h2 hem (lookup_mem' _ _ _ hl) hbad
 
+/-! ## "… base service": a violating device request in an `extends` base survives `override.ExtendService` -/
+
+theorem firstMatch_none_of_third {α : Type} (a b c : String) :
+    ∀ t : List (List String × α),
+      (t.all fun e => match e.1 with | [_, _, z] => z != "*" && z != c | _ => true) = true →
+      TPath.firstMatch t [a, b, c] = none
+  | [], _ => rfl
+  | (pat, x) :: r, ht => by
+    simp only [List.all_cons, Bool.and_eq_true] at ht
+    unfold TPath.firstMatch
+    have : TPath.pmatch pat [a, b, c] = false := by
+      cases h : TPath.pmatch pat [a, b, c]
+      · rfl
+      · have hl := pmatch_length pat _ h
+        match pat, hl, ht.1, h with
+        | [x1, x2, x3], _, h1, h =>
+          simp only [Bool.and_eq_true, bne_iff_ne, ne_eq] at h1
+          simp [TPath.pmatch, h1.1, h1.2] at h
+    rw [this]
+    simpa using firstMatch_none_of_third a b c r ht.2
+
+theorem ruleAt_service_gpus (s : String) : ruleAt ["services", s, "gpus"] = none := by
+  unfold ruleAt ruleAtIn
+  rw [firstMatch_none_of_third "services" s "gpus" CV.Gen.mergeSpecials (by decide)]
+
+/-- **the violating part in a base service**: when the extended base holds a device request with both `count` and
+`device_ids`, the service that `ExtendService` produces still holds it (its `gpus` list is the base's followed by the
+extending service's own requests, if any), and any tree containing that service is rejected -/
+theorem extends_keeps_gpus_violation (svcA svcB kvs : KVs) (merged : Val) (ga : List Val)
+    (hBn : (keys svcB).Nodup)
+    (hm : extendService (.map svcA) (.map svcB) = .ok merged)
+    (hA : Val.lookup "gpus" svcA = some (.seq ga))
+    (hB : Val.lookup "gpus" svcB = none ∨ ∃ gb, Val.lookup "gpus" svcB = some (.seq gb))
+    (hbad : Val.map kvs ∈ ga) (hc : has "count" kvs = true) (hi : has "device_ids" kvs = true)
+    (top svcs : KVs) (name : String) (h1 : ("services", Val.map svcs) ∈ top) (h2 : (name, merged) ∈ svcs) :
+    validate (.map top) ≠ .ok := by
+  have hfuel : fuelFor (.map svcB) = (depth (.map svcB) + 6) + 1 + 1 := rfl
+  unfold extendService at hm
+  simp only at hm
+  rw [hfuel] at hm
+  obtain ⟨m, rfl, hmm⟩ := merge_map_level _ svcA svcB _ (ruleAt_two_parts _ _) merged hm
+  have hg : ∃ g, Val.lookup "gpus" m = some (.seq g) ∧ Val.map kvs ∈ g := by
+    rcases hB with hB | ⟨gb, hB⟩
+    · exact ⟨ga, by rw [merge_base_only _ svcA svcB m _ hBn hmm "gpus" hB, hA], hbad⟩
+    · have hpw := mergeKVsWith_pointwise (mergeYaml _) _ svcB svcA m hBn hmm "gpus"
+      rw [hA, hB] at hpw
+      have hx : hasXPrefix "gpus" = false := by decide
+      simp only [PointwiseAt, hx, Bool.false_eq_true, if_false] at hpw
+      obtain ⟨z, hz, hl⟩ := hpw
+      have hn : Merge.next ["services", "x"] "gpus" = ["services", "x", "gpus"] := by decide
+      rw [hn] at hz
+      simp only [mergeYaml, mergeStep, ruleAt_service_gpus, defaultStep] at hz
+      cases hz
+      exact ⟨ga ++ gb, hl, List.mem_append_left _ hbad⟩
+  obtain ⟨g, hl, hmem⟩ := hg
+  exact validate_rejects_gpus_count_and_ids top svcs m kvs name g h1 h2 (lookup_mem' _ _ _ hl) hmem hc hi
+
 /-! ## non-vacuity: two files, each valid on its own, whose merge is rejected -/
 
 def fileA : Val := .map [("services", .map [("a", .map [("image", .str "i")])]),
@@ -243,5 +301,11 @@ example : ∃ merged, Merge.merge (.map [("volumes", .map [("ev", .map [("extern
     [("ev", .map [("external", .bool true)])] [("ev", .map [("driver", .str "foo")])]
     [("external", .bool true)] [("driver", .str "foo")] _ "ev" "driver"
     (by decide) (by decide) (by decide) rfl rfl rfl rfl rfl (by decide) (.inl ⟨rfl, rfl⟩) (.inr (by decide)) (by decide)⟩
+
+/-- a base service with a violating device request, extended by a service that adds a valid one -/
+example : extendService (.map [("image", .str "i"), ("gpus", .seq [.map [("count", .int 1), ("device_ids", .seq [.str "0"])]])])
+      (.map [("gpus", .seq [.map [("count", .int 2)]])])
+    = .ok (.map [("image", .str "i"),
+        ("gpus", .seq [.map [("count", .int 1), ("device_ids", .seq [.str "0"])], .map [("count", .int 2)]])]) := by rfl
 
 end CV.Validate
